@@ -71,8 +71,17 @@ RULE = ('random cells of every crystal family + triclinic (dyadic-grid vectors, 
         'u+v+t != 0); a batch with one atom moved outside the box (refusals must coincide); conversions: random cells of '
         'every family compatible with each of the 8 settings (and the self-detecting "t"), 1-3 motif atoms per lattice '
         'point, atoms stored inside / on far faces, edges, corners / one cell vector outside, origins; the lattice-site test '
-        'also on spoiled cells; distinct = distinct canonical request line; non-trivial = more than one replica / U != '
-        'identity')
+        'also on spoiled cells; round 3: every system carries one of the 8 pbc settings (half fully periodic), its extra '
+        'per-atom properties under names drawn from a pool (one- and two-letter names, sub-/superstrings of pos and atype, '
+        'a blank, non-ASCII) incl. string labels and flags; a third of the supersize cases, 3 in 10 rotate cases, a quarter '
+        'of the hexagonal ones and 4 in 10 of the randomly stored conversion cells are ONE object with a history behind it '
+        '(1-6 of: scaled-position / reciprocal-vector reads, strains of 1e-12 .. 1e-3 with relative or Cartesian positions '
+        'held through box_set or the Box setters, origin moves, position rewrites, pbc switches, throw-away supersize / '
+        'rotate calls; a third end with read + ppm dilation); one rotate case in 12 has large-index anisotropic vectors '
+        '(entries up to 12, |det| <= 12); multi-type cells whose centring sites hold another type (symbols unset / shared / '
+        'distinct) must be refused; refused multipliers: zero (int, numpy int, empty tuple), tuple ranges without 0, '
+        'non-integers, lists, wrong lengths; distinct = distinct canonical request line; non-trivial = more than one '
+        'replica / U != identity')
 ASSUMPTIONS = ['numpy.linalg.inv and float arithmetic of the implementation are within rtol 1e-9 of the exact value on '
                'the generated (well-conditioned, dyadic) cells',
                'the float tolerance ladder of rotate (isclose to 0/1) is the identity in exact arithmetic',
@@ -85,7 +94,12 @@ ASSUMPTIONS = ['numpy.linalg.inv and float arithmetic of the implementation are 
                'acceptIndex_nearest / rotateF_within_tolerance: the acceptance tolerance atol + rtol|n| is below 1/2 '
                '(|n| < 49999 for the numpy defaults), so rint never meets an exact half among accepted values',
                'checkSites: the float test dmag(atom, site) ~ 0 (atol 1e-8) is "equal modulo the lattice" in exact '
-               'arithmetic; System.dmag reaches one cell vector beyond the box (C01)']
+               'arithmetic; System.dmag reaches one cell vector beyond the box (C01)',
+               'the Box.vects setter zeroes components below 1e-9 of the largest one: where that removes a tilt component of '
+               'the normalized re-oriented cell (second-order terms of a cell sheared by a few ppm; computed per case from '
+               'the requested vectors) results are compared at that bound instead of the rounding bound (as in C05)',
+               'object-level model (SysObj): the only cached quantity of a Box is its reciprocal-vector matrix, dropped by '
+               'the vects setter; the lattice translation of rotate uses numpy.linalg.solve on the visible cell']
 TRUSTED = ['numpy in the correspondence run',
            'Mathlib (Submodule.natAbs_det_equiv: Smith normal form over Z) - kernel-checked, standard axioms only']
 MANIFEST = {
@@ -100,7 +114,12 @@ MANIFEST = {
             'kept list is a permutation of the per-atom image lists, total = natoms x |det U| and the code\'s '
             'expected-count test never fails (atoms on far faces, s = 1, included). The integer test in front of rotate '
             '(an index within the tolerance of an integer becomes that integer, from either side) and the periodic '
-            'lattice-site test of conventional_to_primitive are modelled and proved too. Tied to the code by an '
+            'lattice-site test of conventional_to_primitive are modelled and proved too (a site holding another type '
+            'refuses). Round 3: names of the per-atom properties a copy carries (every name of the input, in order), the '
+            'periodicity flags of the re-oriented cell (fully periodic), the multiplier rules (zero and ranges without 0 '
+            'refused) and an object-level model (cell + cached reciprocal vectors + atoms + flags) with histories: '
+            'coherence of the cache is an invariant of every history and supersize / rotate on the object equal supersize '
+            '/ rotate of its visible state. Tied to the code by an '
             'exact/toleranced correspondence run on supersize '
             'and rotate (incl. refusals) and an exact lattice-arithmetic oracle on the real results (requested vectors, '
             'proper transform, payload incl. tensors, cell conversions undoing one another).',
@@ -571,21 +590,28 @@ def gen_U(rng, maxdet=6, lim=2):
             return U, d
 
 
+def supercell_cells(U):
+    """number of replicas in the bounding supercell of rotate: product over the axes of (max - min + 2) of the 8 corners."""
+    cs = [[0, 0, 0], U[0], U[1], U[2]] + [[U[i][k] + U[j][k] for k in range(3)] for i, j in ((0, 1), (0, 2), (1, 2))] \
+        + [[U[0][k] + U[1][k] + U[2][k] for k in range(3)]]
+    return math.prod(max(c[k] for c in cs) - min(c[k] for c in cs) + 2 for k in range(3))
+
+
 def gen_U_large(rng, maxdet=12, maxentry=12):
     """anisotropic integer vectors with large indices: long thin cells along a high-index direction, one large-index
     row in a plane, unimodular products of many shears (large entries, det +-1); |det| <= maxdet. The bounding
-    supercell of rotate then has hundreds to a few thousand replicas."""
+    supercell of rotate then has 250 .. 3000 replicas."""
     while True:
         r = rng.random()
         if r < 0.35:        # two short vectors and a long one along [a b n]
             n = rng.randint(4, maxentry)
-            U = [[1, 0, 0], [0, 1, 0], [rng.randint(-3, 3), rng.randint(-3, 3), rng.choice([-1, 1]) * n]]
+            U = [[1, 0, 0], [0, 1, 0], [rng.randint(-6, 6), rng.randint(-6, 6), rng.choice([-1, 1]) * n]]
             rng.shuffle(U)
             c = rng.sample(range(3), 3)
             U = [[row[c[j]] for j in range(3)] for row in U]
         elif r < 0.7:       # a large-index pair of in-plane vectors
             a, b = rng.randint(3, maxentry), rng.randint(-maxentry, maxentry)
-            U = [[a, b, 0], [rng.randint(-3, 3), rng.randint(-3, 3), 0], [rng.randint(-1, 1), rng.randint(-1, 1), rng.choice([-1, 1, 2])]]
+            U = [[a, b, 0], [rng.randint(-4, 4), rng.randint(-4, 4), 0], [rng.randint(-2, 2), rng.randint(-2, 2), rng.choice([-1, 1, 2])]]
             c = rng.sample(range(3), 3)
             U = [[row[c[j]] for j in range(3)] for row in U]
         else:               # unimodular, many shears
@@ -597,7 +623,7 @@ def gen_U_large(rng, maxdet=12, maxentry=12):
                 U = _matmul3(E, U)
         d = _det3(U)
         big = max(abs(x) for row in U for x in row)
-        if d != 0 and abs(d) <= maxdet and 4 <= big <= maxentry:
+        if d != 0 and abs(d) <= maxdet and 4 <= big <= maxentry and 250 <= supercell_cells(U) <= 3000:
             return U, d
 
 
@@ -620,6 +646,14 @@ def gen_case_U(rng, am, it, maxdet, history=None):
                 break
         return sysm, fam, spos, U, _det3(U)
     U, d = gen_U(rng, maxdet=maxdet) if it % 12 != 7 else gen_U_large(rng)
+    if it % 12 == 7 and it % 5 != 2 and rng.random() < 0.6:
+        # large bounding supercells: its one cell of padding matters only for images next to the extreme corners of the new
+        # cell - atoms on lattice points / cell corners (listed on either face), atoms a hair off the new cell's faces, and
+        # a box origin on, a hair off, or half a cell off a lattice plane
+        ex = [tuple(Fraction(rng.choice([0, 0, 1])) for _ in range(3))]
+        n = [rng.randint(-2, 2) + rng.choice([0.0, 1.3e-13, -1.3e-13, 1.7e-9, -1.7e-9, 1.3e-6, -3.7e-5, 0.5, -0.25]) for _ in range(3)]
+        sysm, fam, spos = gen_system(rng, am, extra=ex, far=True, history=[['origin-rel', n]])
+        return sysm, fam.replace('+history', '') + '+corner-atoms', spos, U, d
     if history is None and it % 10 in (3, 8, 9):
         # the object has been used before: caches filled, cell strained by a few ppm, origin moved, pbc switched, ...
         history = gen_history(rng)
@@ -1366,8 +1400,11 @@ def gen_conv_case(rng, am, setting, mode='random'):
         # the whole crystal displaced rigidly: no atom on the lattice points, one (or several) a little off them
         # (documented use with check_basis=False); not closer than 1e-5 of a cell: the code declares an atom within
         # 1e-8 length units of a lattice point to be on it
-        shift = [rng.choice([-1, 1]) * rng.choice([Fraction(1, 10 ** 5), Fraction(1, 10 ** 3), Fraction(3, 10 ** 3),
-                                                   Fraction(1, 10 ** 2)]) for _ in range(3)]
+        # (half of the time every component is small: the whole displacement stays below 0.01 length units, the range in
+        # which a widened "is there an atom at the origin" test of the re-centring step would still bite)
+        mags = ([Fraction(1, 10 ** 5), Fraction(1, 10 ** 4), Fraction(3, 10 ** 4)] if rng.random() < 0.5 else
+                [Fraction(1, 10 ** 5), Fraction(1, 10 ** 3), Fraction(3, 10 ** 3), Fraction(1, 10 ** 2)])
+        shift = [rng.choice([-1, 1]) * rng.choice(mags) for _ in range(3)]
         stored = [tuple(t[k] + shift[k] for k in range(3)) for t in stored]
     # names of the two per-atom properties (a float and an integer), the periodicity flags (a flag other than fully
     # periodic only where every coordinate is stored in [0, 1): the lattice-site test looks atoms up with the system's own
